@@ -175,6 +175,101 @@ def make_construct_harness(first_field: str):
     return harness
 
 
+_HIER_SRC = """
+from dataclasses import dataclass, field
+from models.zoo import VBase, VLeaf, VStr2
+
+@dataclass(frozen=True)
+class HBase_T_(VBase):
+    value: int = 0
+    kid: VLeaf | None = None
+
+@dataclass(frozen=True)
+class HSub_T_(HBase_T_):
+    value: str = ""                      # re-declared with another annotation
+    extra: tuple[int, ...] = ()
+    xkid: VStr2 | None = None
+    late: int = field(default=1, init=False)
+
+@dataclass(frozen=True)
+class HBadLate_T_(HBase_T_):
+    late: int = field(default="not an int", init=False)   # an ill-typed field that is no constructor argument
+"""
+_HIER_ANN = {
+    "HBase": {"value": int, "kid": Optional[VLeaf]},
+    "HSub": {"value": str, "kid": Optional[VLeaf], "extra": Tuple[int, ...], "xkid": Optional[VStr2]},
+    "HBadLate": {"value": int, "kid": Optional[VLeaf]},
+}
+_HIER_VALUES = {"value": [("7", 7), ("'x'", "x")], "kid": [("VLeaf", "leaf"), ("VStr2", "str2"), ("None", None)], "extra": [("(1,)", (1,)), ("('a',)", ("a",)), ("()", ())], "xkid": [("VStr2", "str2"), ("VLeaf", "leaf"), ("None", None)]}
+_HIER_COUNT = [0]
+
+
+def hierarchy_harness(e):
+    """Class hierarchies and the order in which their classes are first constructed: every class
+    is checked against its own fields (added, re-declared, init or not), whatever came before."""
+    import sys
+    import types
+
+    from pyoak import config
+    from pyoak.error import InvalidTypes
+
+    reset_all()
+    _HIER_COUNT[0] += 1
+    mod = types.ModuleType(f"vgen_hier{_HIER_COUNT[0]}")
+    sys.modules[mod.__name__] = mod
+    # class names are unique per path: the library admits one class per name
+    tag = f"{_HIER_COUNT[0]}p{__import__('os').getpid()}"
+    exec(compile(_HIER_SRC.replace("_T_", tag), mod.__name__, "exec"), mod.__dict__)
+    for base in ("HBase", "HSub", "HBadLate"):
+        mod.__dict__[base] = mod.__dict__[base + tag]
+    earlier = e.pick(["nothing", "HBase-checked", "HBase-unchecked", "HSub-checked", "ASTNode-checked", "HBase-then-HSub-checked"], "constructed_earlier")
+    for step in {"nothing": [], "HBase-checked": [("HBase", True)], "HBase-unchecked": [("HBase", False)], "HSub-checked": [("HSub", True)], "ASTNode-checked": [("ASTNode", True)], "HBase-then-HSub-checked": [("HBase", True), ("HSub", True)]}[earlier]:
+        config.RUNTIME_TYPE_CHECK = step[1]
+        try:
+            (VBase.__mro__[1] if step[0] == "ASTNode" else mod.__dict__[step[0]])()
+        finally:
+            config.RUNTIME_TYPE_CHECK = False
+    target = e.pick(list(_HIER_ANN), "class")
+    ann = _HIER_ANN[target]
+    kw: dict[str, Any] = {}
+    desc: dict[str, str] = {}
+    expected: set[str] = {"late"} if target == "HBadLate" else set()
+    nodes = {"leaf": VLeaf(v=31), "str2": VStr2(a="z")}
+    fields_given = [e.pick(list(ann), "field")]
+    other = e.pick(["<none>"] + [n for n in ann if n > fields_given[0]], "second_field")
+    if other != "<none>":
+        fields_given.append(other)
+    for fname in fields_given:
+        text, val = e.pick(_HIER_VALUES[fname], f"value_{fname}")
+        val = nodes.get(val, val) if isinstance(val, str) and val in nodes else val
+        kw[fname], desc[fname] = val, text
+        if not conforms(val, ann[fname]):
+            expected.add(fname)
+    scenario: dict[str, Any] = {"constructed_earlier": earlier, "class": target, "fields": desc, "expected_invalid": sorted(expected)}
+    config.RUNTIME_TYPE_CHECK = True
+    try:
+        try:
+            mod.__dict__[target](**kw)
+            raised = None
+        except InvalidTypes as ex:
+            raised = sorted(f.name for f in ex.invalid_fields)
+            own = {f.name: f for f in __import__("dataclasses").fields(mod.__dict__[target])}
+            if any(own.get(f.name) is not f for f in ex.invalid_fields):
+                scenario.update(raised=raised)
+                e.fail("invalid_fields-are-not-the-fields-of-the-class-constructed", scenario=scenario)
+    finally:
+        config.RUNTIME_TYPE_CHECK = False
+    scenario.update(raised=raised)
+    if expected and raised is None:
+        e.fail("ill-typed-construction-accepted", scenario=scenario)
+    if not expected and raised is not None:
+        e.fail("well-typed-construction-rejected", scenario=scenario)
+    if expected and raised != sorted(expected):
+        e.fail("invalid_fields-not-exactly-the-non-conforming-fields", scenario=scenario)
+    e.distinct((earlier, target, tuple(sorted(desc.items()))))
+    return scenario
+
+
 def _x_runner(tier: str, seed: int, workers: int):
     from xh import c13_gen
     from xh.runner import run_obligations
@@ -210,6 +305,7 @@ def spec(tier: str, seed: int) -> Spec:
     fams = [Family("pool-pairs", pool_harness, variables="selectors: annotation x pool value")]
     for fname in FIELD_ANN:
         fams.append(Family(f"construct-{fname}", make_construct_harness(fname), variables="selectors: one or two deviating fields and their values; lazy: config.RUNTIME_TYPE_CHECK"))
+    fams.append(Family("class-hierarchy-history", hierarchy_harness, variables="selectors: which classes of a hierarchy were constructed earlier (checked or not), class, one or two fields and their values"))
     return Spec(
         families=fams,
         obligation_runners=[_x_runner],
